@@ -9,6 +9,10 @@
 namespace nm = nmtools;
 namespace ix = nmtools::index;
 using sv_t = nmtools::utl::static_vector<nm_size_t,8>;
+using opt_sv_t = nmtools_maybe<sv_t>;
+using hn_t = nmtools::array::hybrid_ndarray<nm_size_t,8,1>;
+using scat_t = nmtools_tuple<bool,sv_t>;
+using cat_t = nmtools_tuple<bool,bool,sv_t,sv_t>;
 
 // ---- tile: view::tile_t  dst_shape = shape_tile(src_shape,reps); indices(i) = tile(src_shape,reps,i)
 auto verif_shape_tile(sv_t shape, sv_t reps) { return ix::shape_tile(shape,reps); }
